@@ -346,7 +346,7 @@ func runC16(c *Ctx) {
 		}
 		// worker: one result per job
 		for _, l := range f.Lits {
-			if _, isGo := p.Parent(p.Parent(l.Lit)).(*ast.GoStmt); !isGo {
+			if isGo := l.IsSpawned(); !isGo {
 				continue
 			}
 			var rng *ast.RangeStmt
